@@ -581,6 +581,20 @@ def _int_const(f, o, depth=0):
         vals = set(_int_const(f, x, depth + 1) for x in ins.ops)
         if len(vals) == 1:
             return list(vals)[0]
+    if ins.op == "load":
+        # `*p = g(...); if (*p != 0)`: the value just stored through the same address, nothing in between in the block
+        addr = strip_casts(f, ins.ops[0])
+        blk = ins.bb.insts
+        k = blk.index(ins) - 1
+        while k >= 0:
+            x = blk[k]
+            if x.op == "store":
+                if strip_casts(f, x.ops[1]) == addr:
+                    return _int_const(f, x.ops[0], depth + 1)
+                return None
+            if x.op == "call" and not (x.callee or "").startswith("llvm.dbg"):
+                return None
+            k -= 1
     return None
 
 
